@@ -333,6 +333,11 @@ func (w *World) verifyFunc(fi *FuncInfo, fc *FuncContract) (ex *Exec, err error)
 			return ex, fmt.Errorf("stmt hint at %s: no statement of the function starts on that line", fc.StmtHints[k].Where)
 		}
 	}
+	for k := range fc.RetLetsText {
+		if !fc.RetLetsText[k].used {
+			return ex, fmt.Errorf("ret hint %q#%d: the function has no such return statement", fc.RetLetsText[k].Text, fc.RetLetsText[k].K)
+		}
+	}
 	for n := range fc.Calls {
 		if n >= ex.callN {
 			return ex, fmt.Errorf("contract mentions call %d but the function has only %d contract-governed calls (ordinals are shown in the obligation names)", n, ex.callN)
@@ -417,6 +422,26 @@ func (ex *Exec) execReturn(st *State, s *ast.ReturnStmt) {
 	if lets := ex.fc.RetLets[rn]; lets != nil {
 		for nm, e := range lets {
 			extra[nm] = ex.specVal(st, e, extra)
+		}
+	}
+	if s != nil && len(ex.fc.RetLetsText) > 0 {
+		p := ex.w.Fset.Position(s.Pos())
+		line := strings.TrimSpace(ex.w.sourceLine(p.Filename, p.Line))
+		if ex.retTextSeen == nil {
+			ex.retTextSeen = map[int]int{}
+		}
+		for k := range ex.fc.RetLetsText {
+			h := &ex.fc.RetLetsText[k]
+			if !strings.HasPrefix(line, h.Text) {
+				continue
+			}
+			ex.retTextSeen[k]++
+			if ex.retTextSeen[k] == h.K {
+				h.used = true
+				for nm, e := range h.Lets {
+					extra[nm] = ex.specVal(st, e, extra)
+				}
+			}
 		}
 	}
 	cov := ex.oblige(st, "cover", fmt.Sprintf("cover.ret%d", rn), tFalse, where+": return site reachable")
